@@ -312,13 +312,18 @@ def write_replay(prop, payload):
     return path
 
 
+# obligations that failed before the property's own run started (the translator could not read a
+# constant or table out of the source): every Result starts with them, undischarged
+PRE_BROKEN = []
+
+
 class Result:
     """Collected outcome of one check run."""
 
     def __init__(self, prop, tier, seed):
         self.prop, self.tier, self.seed = prop, tier, seed
         self.t0 = time.time()
-        self.obligations = []          # (name, ok)
+        self.obligations = [(n, False) for n in PRE_BROKEN]          # (name, ok)
         self.violations = []           # (replay_path, no_input_found)
         self.known = []                # strings
         self.cov = {"evaluations": 0, "distinct_nontrivial": 0, "rule": "", "samples": []}
